@@ -103,6 +103,16 @@ func (p *Processor) handleCleanup(ctx context.Context) {
 				gs = p.gs
 			}
 
+			if gs == nil {
+				// No guardian set is known yet (e.g. a VAA was injected before the first
+				// set was fetched), so there is nothing to count misses against.
+				p.logger.Warn("VAA considered settled before the guardian set was initialized",
+					zap.String("digest", hash),
+					zap.Duration("delta", delta),
+				)
+				break
+			}
+
 			hasSigs := len(s.signatures)
 			wantSigs := CalculateQuorum(len(gs.Keys))
 			quorum := hasSigs >= wantSigs
